@@ -1125,3 +1125,6 @@ def tag(line, impl, model):
     if op == "q":
         return "q %s%s" % (toks[1].split(":")[0], " edns" if int(toks[3]) > 0 else "")
     return op
+
+
+KNOWN_MUST_MATCH_MODEL = True   # inside a known finding's region the observation must still equal the model's (which reproduces the listed defect); see lib/vf/run.py
